@@ -163,6 +163,7 @@ func runC15(c *Ctx, pr *PropertyRun) {
 			res := runDTX(c, spec)
 			reportDTX(c, capt, spec, res, "depth")
 			capt.Role("depth-accounting-table")
+			depthRefusalRule(c, pr, helper)
 		} else {
 			capt.Note("the capture does not recurse through a helper with a depth counter: depth accounting not applicable")
 		}
@@ -740,4 +741,102 @@ func depthHelper(c *Ctx, um *ssa.Function) *ssa.Function {
 		}
 	})
 	return found
+}
+
+// depthRefusalRule: where the recursive capture compares its depth counter
+// with the bound, the side on which the bound is reached ends the capture
+// with an error. Going on instead (skipping the element, truncating) hands
+// out a value that is not the tree that was sent, with no error: marshal,
+// token replay and typed decoding of it silently differ from the input.
+func depthRefusalRule(c *Ctx, pr *PropertyRun, helper *ssa.Function) {
+	p := c.P
+	r := NewRule("C15", "C15.depth-refusal", "the capture's test of its depth counter against the bound leads, on the side where the bound is reached, only to returns of a non-nil error (E4)")
+	pr.Rules = append(pr.Rules, r)
+	depth := helper.Params[len(helper.Params)-1]
+	fromDepth := func(v ssa.Value) bool {
+		for i := 0; i < 3; i++ {
+			if v == ssa.Value(depth) {
+				return true
+			}
+			bo, ok := v.(*ssa.BinOp)
+			if !ok || (bo.Op != token.ADD && bo.Op != token.SUB) {
+				return false
+			}
+			if _, isC := bo.Y.(*ssa.Const); isC {
+				v = bo.X
+			} else if _, isC := bo.X.(*ssa.Const); isC {
+				v = bo.Y
+			} else {
+				return false
+			}
+		}
+		return false
+	}
+	eachInstr(helper, func(_ *ssa.BasicBlock, in ssa.Instruction) {
+		iff, ok := in.(*ssa.If)
+		if !ok {
+			return
+		}
+		bo, ok := iff.Cond.(*ssa.BinOp)
+		if !ok {
+			return
+		}
+		var k int64
+		depthLeft := false
+		if cst, isC := bo.Y.(*ssa.Const); isC && fromDepth(bo.X) {
+			k, _ = constInt(cst)
+			depthLeft = true
+		} else if cst, isC := bo.X.(*ssa.Const); isC && fromDepth(bo.Y) {
+			k, _ = constInt(cst)
+		} else {
+			return
+		}
+		if k < 100 {
+			return // not the nesting bound
+		}
+		// the successor on which depth has reached the bound
+		reached := -1
+		switch bo.Op {
+		case token.GEQ, token.GTR:
+			reached = map[bool]int{true: 0, false: 1}[depthLeft]
+		case token.LSS, token.LEQ:
+			reached = map[bool]int{true: 1, false: 0}[depthLeft]
+		default:
+			return
+		}
+		r.Role("depth-bound-test")
+		succ := iff.Block().Succs[reached]
+		ok = true
+		why := ""
+		seen := map[*ssa.BasicBlock]bool{}
+		stack := []*ssa.BasicBlock{succ}
+		for len(stack) > 0 {
+			b := stack[len(stack)-1]
+			stack = stack[:len(stack)-1]
+			if seen[b] {
+				continue
+			}
+			seen[b] = true
+			if b == iff.Block() {
+				ok, why = false, "the capture goes on (back to the loop) after the bound was reached"
+				break
+			}
+			if ret, isRet := b.Instrs[len(b.Instrs)-1].(*ssa.Return); isRet {
+				for _, res := range ret.Results {
+					if isErrorType(res.Type()) {
+						if cst, isC := res.(*ssa.Const); isC && cst.IsNil() {
+							ok, why = false, "a return without error is reachable after the bound was reached"
+						}
+					}
+				}
+				continue
+			}
+			stack = append(stack, b.Succs...)
+		}
+		r.Ob(ok)
+		if !ok {
+			r.Violation("depth-not-refused|"+fnKey(helper), p.instrPos(iff), fmt.Sprintf("%s: %s: an element nested beyond the bound is dropped or cut instead of being refused, so what is captured is not the tree that was sent and nobody is told", fnKey(helper), why), nil)
+		}
+	})
+	r.RequireRole("depth-bound-test")
 }
